@@ -24,8 +24,8 @@ func TestC04(t *testing.T) {
 		ID: "C04", TestName: "TestC04", Plans: append(cscen.Plans(), cscen.GenPlans()...),
 		QuickTime: quick, ThorTime: thor,
 		// the buffered/unbuffered hook pairing rides on these scenarios but is C14's subject
-		Keep: func(_, key string) bool { return !strings.HasPrefix(key, "hook-") },
-		Rule:   "engine N: every order of application calls (T1 PollRecords(1|3)/PollFetches loop, T2 PauseFetchPartitions/ResumeFetchPartitions of t/0, ENV leader move + one append / move while the first fetch is in flight / preferred-read-replica redirect), request/response frame deliveries, timer ticks and injected faults (Fetch: connection kill before/after handling, FETCH_SESSION_ID_NOT_FOUND, INVALID_FETCH_SESSION_EPOCH, NOT_LEADER_FOR_PARTITION, OFFSET_NOT_AVAILABLE, handled-but-empty response, stalled request; Metadata: kill before/after) within k deviations of the default order, for eleven direct-consumer scenarios over a pre-loaded 2-partition log with a committed and an aborted transaction (ConsumeTopics, ConsumePartitions with mid-batch starts, read_committed, small FetchMaxPartitionBytes, shared source, late first poll, pause before the first fetch, slow consumer with periodic metadata refresh, preferred replica, move without append); k=1 quick, k=2 thorough (any pair of deviations for D-early, D-late, D-onesource, D-slow; second deviation restricted to faults for the others); distinct = distinct terminal outcomes (per-poll record counts per partition, polls needed for completion, polls inside the paused window, error classes) per scenario",
+		Keep:   func(_, key string) bool { return !strings.HasPrefix(key, "hook-") },
+		Rule:   "engine N: every order of application calls (T1 PollRecords(1|3)/PollFetches loop, T2 PauseFetchPartitions/ResumeFetchPartitions of t/0, ENV leader move + one append / move while the first fetch is in flight / preferred-read-replica redirect), request/response frame deliveries, timer ticks and injected faults (Fetch: connection kill before/after handling, FETCH_SESSION_ID_NOT_FOUND, INVALID_FETCH_SESSION_EPOCH, NOT_LEADER_FOR_PARTITION, OFFSET_NOT_AVAILABLE, handled-but-empty response, stalled request; Metadata: kill before/after) within k deviations of the default order, for eleven direct-consumer scenarios over a pre-loaded 2-partition log with a committed and an aborted transaction (ConsumeTopics, ConsumePartitions with mid-batch starts, read_committed, small FetchMaxPartitionBytes, shared source, late first poll, pause before the first fetch, slow consumer with periodic metadata refresh, preferred replica, move without append); k=1 quick, k=2 thorough (any pair of deviations for D-early, D-late, D-onesource, D-slow; second deviation restricted to faults for the others); plus the generated family DG: every combination of consumer configuration (default; read_committed + FetchMaxPartitionBytes 200; MaxConcurrentFetches 1; both partitions on one broker; ConsumePartitions mid-batch + small partition bytes + KeepRetryableFetchErrors; thorough also MetadataMaxAge 2 s and one-broker+split+read_committed) x application think time around each poll (none / 700 ms after; thorough: 700 ms after, 700 ms before the next call, 2.5 s) x polling script (quick: all 4 sequences of 2 calls over PollRecords(1), PollFetches; thorough: all 8 of 3 calls plus 3 with PollRecords(3)) x disrupting script (every sequence of at most 2 calls over PauseFetchPartitions/ResumeFetchPartitions(t/0), PauseFetchTopics/ResumeFetchTopics(t), leader move of t/1 + append, leader-epoch bump of t/0, drop of all fetch connections, eviction of the fetch sessions, each bound to a gate after the g-th poll: 409 quick, 673 thorough) on the default schedule (thorough: then every single deviation, time-capped); distinct = distinct terminal outcomes (per-poll record counts per partition, polls needed for completion, polls inside the paused window, error classes) per scenario",
 		Assume: []string{"kfake is the broker (D-prefer injects PreferredReadReplica through a kfake control function because kfake never nominates a follower)", "synctests build of xsync (C31 covers the channel mutexes)", "goroutine micro-interleavings inside one event are the Go runtime's", "polls are issued by one thread at a time (T1, then the Final phase), so 'across all polls' is a total order"},
 	})
 }
